@@ -101,12 +101,13 @@ class Timer:
     """One timed operation: ``left`` steps (with the node ON) until it is due; ``joined`` = steps-until-due that the
     requests made while it was already running would have had (completion then is tolerated, not demanded)."""
 
-    __slots__ = ("left", "joined", "duration")
+    __slots__ = ("left", "joined", "duration", "restarted")
 
-    def __init__(self, duration):
+    def __init__(self, duration, restarted=False):
         self.left = max(duration, 1)
         self.duration = duration
         self.joined = []
+        self.restarted = restarted  # started by a request that superseded a pending operation
 
     def join(self):
         self.joined.append(max(self.duration, 1))
@@ -120,16 +121,18 @@ class Timer:
     def stem(self, what):
         if self.duration == 0:
             return "%s:duration=0" % what
-        return "%s:duration>0:%s" % (what, "rerequested-while-running" if self.joined else "single")
+        return "%s:duration>0:%s" % (what, "rerequested-while-running" if self.joined or self.restarted else "single")
 
     def key(self):
-        return (self.left, tuple(sorted(self.joined)), self.duration)
+        return (self.left, tuple(sorted(self.joined)), self.duration, self.restarted)
 
 
 class Shadow:
     """Timers of the operations the harness has requested.  ``zero_instant`` = convention for a configured duration
     of 0, per operation kind (fscan, frest, nscan, fix_svc, fix_app): True: the operation is complete when the request
-    returns; False: after the first following step."""
+    returns; False: after the first following step.  The same dictionary carries ``nscan_restart``: the convention for a
+    node os-scan requested again while one is pending (the statement is silent): False: it joins the pending scan
+    (original deadline); True: it supersedes it (deadline = node_scan_duration steps after the latest request)."""
 
     OPS = ("nscan", "fscan", "frest")
 
@@ -251,7 +254,10 @@ class Shadow:
         elif kind == "os_scan":
             if ok:
                 if self.op["nscan"] is not None:
-                    self.op["nscan"].join()
+                    if self.zero_instant.get("nscan_restart", False):
+                        self.op["nscan"] = Timer(cfg["nscan"], restarted=True)
+                    else:
+                        self.op["nscan"].join()
                 elif cfg["nscan"] == 0 and self.zero_instant.get("nscan", False):
                     cover_all("now", "node_scan_duration_exact", "os-scan:duration=0")
                 else:
@@ -498,7 +504,9 @@ class HealthAdapter(engine.Adapter):
         s.start()
         zero = [k for k, ck in (("fscan", "dscan"), ("frest", "drest"), ("nscan", "nscan"), ("fix_svc", "fix_svc"),
                                 ("fix_app", "fix_app")) if c[ck] == 0]
-        # first shadow = every zero duration read as "after the first step"; it is the one whose verdict is reported
+        zero.append("nscan_restart")  # a repeated os-scan request joins the pending scan (False) or supersedes it (True)
+        # first shadow = every zero duration read as "after the first step", repeated os-scan joins; its verdict is the
+        # one reported when no convention fits
         s.shadows = [Shadow(c, dict(zip(zero, m))) for m in itertools.product([False, True], repeat=len(zero))]
         if c["menu"] == "obs":
             # the real observation classes, configured so that health must be scanned (…_requires_scan)
@@ -804,7 +812,9 @@ ASSUMPTIONS = [
     "timers only advance on steps during which the node is ON (a powered-off node neither fixes nor scans; the countdown "
     "resumes after start-up); this follows Node.apply_timestep and is not contradicted by the documentation",
     "a request repeated while the same operation is already running joins it: the running operation must still complete "
-    "at its original due step; a further completion at the later due step is tolerated",
+    "at its original due step; a further completion at the later due step is tolerated; for the node os-scan (statement "
+    "silent) the repeated request may alternatively supersede the pending scan (deadline = node_scan_duration steps after "
+    "the latest request) - a violation is reported only if neither convention fits",
     "a successful compromise during a fix supersedes the fix (no completion is then demanded)",
     "software and single-file scan requests complete immediately (Software.scan / File.scan), folder scan after "
     "scan_duration, node scan after node_scan_duration and covers all software, live folders and live files",
